@@ -593,7 +593,7 @@ Proof.
     destruct (finished (upd_thr s t (mkThr None [] false (th_exited h))) t c) as [s1 e1] eqn:Hfin.
     injection Hf as <- <-. eapply finish_inv; eauto.
   - (* LUnregBegin *)
-    destruct (in_unreg s c) eqn:Hu; [discriminate|]. destruct (lmem c (s_cl s)); [|discriminate].
+    destruct (in_unreg s c) eqn:Hu; [discriminate|]. destruct (lmem c (s_cl s) || sd_done (s_sd s)); [|discriminate].
     injection Hst as Hb. destruct (unreg_begin s c) as [s1 e1] eqn:Hub. injection Hb as <- <-. eapply unreg_begin_inv; eauto.
   - (* LUnregWake *)
     destruct (tget c (s_unreg s)) as [[[|]|]|] eqn:Hu; try discriminate. injection Hst as <- <-. now apply unreg_wake_inv.
@@ -669,7 +669,7 @@ Proof.
     pose proof (dispatch_bad _ I2 Hb2) as Hb3.
     unfold fin_notify in Hfin. destruct (outstanding _ c); [injection Hfin as <- <-; auto|].
     destruct (lmem c _); injection Hfin as <- <-; auto. sst. now rewrite notify_bad.
-  - destruct (in_unreg s c); [discriminate|]. destruct (lmem c (s_cl s)); [|discriminate].
+  - destruct (in_unreg s c); [discriminate|]. destruct (lmem c (s_cl s) || sd_done (s_sd s)); [|discriminate].
     unfold unreg_begin in Hst. destruct (outstanding s c); injection Hst as <- <-; auto.
   - destruct (tget c (s_unreg s)) as [[[|]|]|]; try discriminate. injection Hst as <- <-. auto.
   - destruct (tget c (s_unreg s)) as [[|]|]; try discriminate. injection Hst as <- <-. auto.
